@@ -119,10 +119,10 @@ def run(ctx):
     ctx.instance("R-VARIANT.inverse.arms", ndisp)
     ctx.floor("R-VARIANT.inverse.arms", 20)
     # LEB128 writers decide "more bytes follow" exactly at the 7-bit limit
-    trunc.writer_threshold(ctx, fx, [f for f in fx.files() if f.startswith('src/io/')])
+    trunc.writer_threshold(ctx, fx, [f for f in fx.files() if f.startswith('src/io/') or ctx.tier == 'thorough'])
     ctx.floor('R-VARINT.threshold.writers', 4)
     # buffering writers: the count of a partial write is returned or the write is retried
-    partial.run(ctx, fx, [f for f in fx.files() if f.startswith('src/io/')])
+    partial.run(ctx, fx, [f for f in fx.files() if f.startswith('src/io/') or ctx.tier == 'thorough'])
     ctx.floor('R-PARTIALWRITE.sites', 5)
     return dict(
         level_note="decides format agreement (widths, endianness, field order, prefix kinds, inverse dispatch); value round "
